@@ -29,6 +29,7 @@ class Mod:
         self.uses: list[tuple[Mod, dict | None]] = []  # (module, None | {local: remote})
         self.type_members: dict[str, list[Decl]] = {}  # type name -> all components incl. inherited
         self.public_imports: set[str] = set()  # USE-associated local names a default-private module re-exports
+        self.private_imports: set[str] = set()  # USE-associated local names a default-public module declares PRIVATE
         self.lines: list[str] = []
 
     def exported(self) -> dict[str, Decl]:
@@ -36,6 +37,8 @@ class Mod:
         out = {n: d for n, d in self.decls.items() if d.public}
         for m, only in self.uses:
             for n, d in imported(m, only).items():
+                if n in self.private_imports:
+                    continue
                 if not self.default_private or n in self.public_imports:
                     out.setdefault(n, d)
         return out
@@ -63,8 +66,9 @@ def imported(m: Mod, only):
 
 
 class Gen:
-    def __init__(self, rnd: random.Random):
+    def __init__(self, rnd: random.Random, legacy: bool = False):
         self.r = rnd
+        self.legacy = legacy  # the REGRESSION programs keep the exact shape that once exposed a defect
         self.uid = 0
         self.mods: list[Mod] = []
         self.sites: list[tuple] = []  # (file, line0, col0, expected (file, line0) | None, note)
@@ -102,6 +106,12 @@ class Gen:
                 L.append("  public :: " + ", ".join(self.cs(n) for n in sorted(m.public_imports)))
         elif r.random() < 0.3:
             L.append("  public")
+        if not m.default_private:
+            imp = sorted(n for n, d in m.visible().items() if d.kind in ("var", "proc"))
+            if imp and self.r2.random() < 0.35 and not self.legacy:
+                # a USE-associated name the module keeps to itself
+                m.private_imports = {self.r2.choice(imp)}
+                L.append("  private :: " + ", ".join(n.upper() if self.r2.random() < 0.3 else n for n in sorted(m.private_imports)))
 
         def vis_attr():
             """returns (attribute text, is_public)"""
@@ -134,9 +144,14 @@ class Gen:
         for u, only in m.uses + ([(m.proc_use[0], m.proc_use[2])] if m.proc_use else []):
             if u.default_private and only is None:
                 behind |= {n for n, d in u.visible().items() if d.kind == "var" and n not in u.decls}
+            if only is None:
+                behind |= {n for n in u.private_imports if u.visible()[n].kind == "var"}
             if isinstance(only, tuple):
                 # renamed away: the original name is free again in this scope
                 behind |= {rem for rem in only[1].values() if u.exported()[rem].kind == "var"}
+            if isinstance(only, dict) and not only:
+                # empty ONLY list: every name of the module stays free in this scope
+                behind |= {n for n, d in u.exported().items() if d.kind == "var"}
         behind -= set(m.visible())
         if m.proc_use:
             behind -= set(imported(m.proc_use[0], m.proc_use[2]))
@@ -237,6 +252,14 @@ class Gen:
         return m
 
     def use_stmt(self, u):
+        text, only = self._use_stmt(u)
+        # `USE m, ONLY:` with an empty list makes nothing of m accessible (own stream: earlier programs keep their shape)
+        c = self.r2.random()
+        if c < 0.1 and not self.legacy:
+            return f"use {u.name}, only:" + ("" if c < 0.05 else " "), {}
+        return text, only
+
+    def _use_stmt(self, u):
         r = self.r
         exp = u.exported()
         names = sorted(exp)
@@ -407,7 +430,8 @@ def check_program(files, sites, mode=0):
 
 
 # generator seeds (with their open mode) that exposed defects of the pinned tree; always run first
-REGRESSION = [(24, 0), (551, 2), (8135, 0), (23963, 1)]
+# (generator seed, open mode, legacy shape): programs that once exposed a defect or a catalogue mutant
+REGRESSION = [(24, 0, True), (551, 2, True), (8135, 0, True), (23963, 1, True), (291, 2, True), (720, 0, False)]
 
 
 def check_references(files, g: "Gen", rnd: random.Random, mode=0):
@@ -575,9 +599,9 @@ def run_completion(tier: str, seed: int):
 
 def run(tier: str, seed: int):
     n = sites_n = 0
-    plan = list(REGRESSION) + [(seed * 7919 + k, (0, 2, 1, 2)[k % 4]) for k in range(600 if tier == "thorough" else 120)]
-    for gs, mode in plan:
-        g = Gen(random.Random(gs))
+    plan = list(REGRESSION) + [(seed * 7919 + k, (0, 2, 1, 2)[k % 4], False) for k in range(600 if tier == "thorough" else 120)]
+    for gs, mode, legacy in plan:
+        g = Gen(random.Random(gs), legacy=legacy)
         files, sites = g.generate()
         n += 1
         sites_n += len(sites)
